@@ -24,6 +24,28 @@ theorem normalize (T : Mat) (v : Vec) (hfix : vecMat v T = v) (hsum : v.sum ≠ 
 
 example : vecMat [2, 3] [[1/2, 1/2], [1/3, 2/3]] = [2, 3] ∧ ([2, 3] : Vec).sum ≠ 0 := by decide +kernel
 
+/-! ### 2. the vector returned by the linear solve is stationary and normalised -/
+
+/-- The exact Gauss–Jordan inverse of the model is correct: whenever `inverse m` returns a matrix for a well-formed
+square `m`, that matrix is well-formed and a two-sided inverse.  (Proved from the elimination rounds, no certificate
+assumed.) -/
+theorem inverse_sound (n : Nat) (m inv : Mat) (h : m.length = n ∧ ∀ r ∈ m, r.length = n)
+    (hi : inverse m = some inv) :
+    (inv.length = n ∧ ∀ r ∈ inv, r.length = n) ∧ mul m inv = identity n ∧ mul inv m = identity n :=
+  inverse_spec (n := n) h hi
+
+example : inverse [[2, 1], [1, 1]] = some [[1, -1], [-1, 2]] := by decide +kernel
+
+/-- Whenever `stationary T` returns a vector `x` (well-formed square `T`), `x` is a left fixed vector of `T` and its
+entries sum to one.  Nothing is assumed about `T` beyond its shape: the first part is the model's final check, the
+second is the replaced last equation of the solved system. -/
+theorem stationary_sound (n : Nat) (T : Mat) (x : Vec) (hT : T.length = n ∧ ∀ r ∈ T, r.length = n)
+    (hs : stationary T = some x) : vecMat x T = x ∧ x.sum = 1 :=
+  let h := stationary_spec (n := n) hT hs
+  ⟨h.1, h.2.1⟩
+
+example : stationary [[1/2, 1/2], [1/3, 2/3]] = some [2/5, 3/5] := by decide +kernel
+
 /-! ### 3. uniqueness from a left-inverse certificate -/
 
 /-- `statMatrix T` is literally the matrix that `stationary` inverts. -/
@@ -52,26 +74,6 @@ theorem unique_of_certificate (n : Nat) (T L : Mat) (hn : 1 ≤ n)
 
 example : mul [[-6/5, 2/5], [6/5, 3/5]] (statMatrix [[1/2, 1/2], [1/3, 2/3]]) = identity 2 ∧
     vecMat [2/5, 3/5] [[1/2, 1/2], [1/3, 2/3]] = [2/5, 3/5] ∧ ([2/5, 3/5] : Vec).sum = 1 := by decide +kernel
-
-/-! ### 2. the vector returned by the linear solve is stationary and normalised -/
-
-/-- The exact Gauss–Jordan inverse of the model is correct: whenever `inverse m` returns a matrix for a well-formed
-square `m`, that matrix is well-formed and a two-sided inverse.  (Proved from the elimination rounds, no certificate
-assumed.) -/
-theorem inverse_sound (n : Nat) (m inv : Mat) (h : m.length = n ∧ ∀ r ∈ m, r.length = n)
-    (hi : inverse m = some inv) :
-    (inv.length = n ∧ ∀ r ∈ inv, r.length = n) ∧ mul m inv = identity n ∧ mul inv m = identity n :=
-  inverse_spec (n := n) h hi
-
-example : inverse [[2, 1], [1, 1]] = some [[1, -1], [-1, 2]] := by decide +kernel
-
-/-- Whenever `stationary T` returns a vector `x` (well-formed square `T`), `x` is a left fixed vector of `T` and its
-entries sum to one.  Nothing is assumed about `T` beyond its shape: the first part is the model's final check, the
-second is the replaced last equation of the solved system. -/
-theorem stationary_sound (n : Nat) (T : Mat) (x : Vec) (hT : T.length = n ∧ ∀ r ∈ T, r.length = n)
-    (hs : stationary T = some x) : vecMat x T = x ∧ x.sum = 1 :=
-  let h := stationary_spec (n := n) hT hs
-  ⟨h.1, h.2.1⟩
 
 /-- Whenever `stationary T` returns `x`, every left fixed vector of `T` with sum one equals `x`
 (the computed inverse is itself the uniqueness certificate of `unique_of_certificate`). -/
@@ -102,9 +104,13 @@ theorem embed_stationary (n : Nat) (T : Mat) (mask : List Bool) (μ : Vec)
     exact this
   exact embed_stationary_aux (n := n) hT hm hclosed hμ hfix
 
-example : vecMat [2/5, 3/5] (rowNormalizeQ (restrict [[1/2, 1/2, 0], [1/3, 2/3, 0], [1/4, 1/4, 1/2]] [true, true, false]))
-      = [2/5, 3/5] ∧
-    embed [2/5, 3/5] [true, true, false] = [2/5, 3/5, 0] := by decide +kernel
+example :
+    let T : Mat := [[1/2, 1/2, 0], [1/3, 2/3, 0], [1/4, 1/4, 1/2]]
+    let mask := [true, true, false]
+    (∀ i, i < 3 → ∀ j, j < 3 → mask.getD i false = true → mask.getD j false = false → entry T i j = 0) ∧
+    (∀ i, i < 3 → mask.getD i false = true → (T.getD i []).sum = 1) ∧
+    vecMat [2/5, 3/5] (rowNormalizeQ (restrict T mask)) = [2/5, 3/5] ∧
+    embed [2/5, 3/5] mask = [2/5, 3/5, 0] := by decide +kernel
 
 /-! ### 5. the ergodicity guard -/
 
@@ -126,5 +132,58 @@ theorem guard (T : Mat) :
   ⟨guard_error T, fun h b => guard_ok T b h⟩
 
 example : isErgodic [[1/2, 1/2], [1/3, 2/3]] = true ∧ isErgodic [[1, 0], [0, 1]] = false := by decide +kernel
+
+/-! ### 6. the pieces put together: what `equilibrium_population` returns -/
+
+/-- Ergodic case, end to end: if `is_ergodic` accepts `T` and the model returns a vector `x`, then `x` is a left fixed
+vector of `T`, sums to one, and is the only such vector. -/
+theorem equilibrium_ergodic_sound (T : Mat) (b : Bool) (x : Vec) (h : isErgodic T = true)
+    (heq : equilibrium T b = .ok (some x)) :
+    vecMat x T = x ∧ x.sum = 1 ∧ ∀ y : Vec, vecMat y T = y → y.sum = 1 → y = x := by
+  rw [guard_ok T b h] at heq
+  have hs : stationary T = some x := by injection heq
+  have hT := WF_of_isTmat (isTmat_of_isErgodic h)
+  have := stationary_sound T.length T x hT hs
+  exact ⟨this.1, this.2, fun y hy sy => stationary_unique T.length T x y hT hs hy sy⟩
+
+example : isErgodic [[1/2, 1/2], [1/3, 2/3]] = true ∧
+    equilibrium [[1/2, 1/2], [1/3, 2/3]] false = .ok (some [2/5, 3/5]) := by decide +kernel
+
+/-- Non-ergodic case, end to end: if `allow_non_ergodic = True`, `ergodic_mask` marks a set that is closed under `T`
+and whose rows sum to one, and the model returns a vector `p`, then `p` is a left fixed vector of `T`, sums to one and
+vanishes outside the marked set. -/
+theorem equilibrium_nonergodic_sound (n : Nat) (T : Mat) (mask : List Bool) (p : Vec)
+    (hT : T.length = n ∧ ∀ r ∈ T, r.length = n)
+    (hne : isErgodic T = false) (hmask : ergodicMask T = some mask)
+    (hclosed : ∀ i j, i < n → j < n → mask.getD i false = true → mask.getD j false = false → entry T i j = 0)
+    (hrow : ∀ i, i < n → mask.getD i false = true → (T.getD i []).sum = 1)
+    (heq : equilibrium T true = .ok (some p)) :
+    vecMat p T = p ∧ p.sum = 1 ∧ ∀ i, mask.getD i false = false → p.getD i 0 = 0 := by
+  have hm : mask.length = n := by
+    rw [length_ergodicMask hmask, hT.1]
+  unfold equilibrium at heq
+  simp only [hne, hmask, Bool.false_eq_true, ↓reduceIte, Bool.not_true] at heq
+  split at heq
+  · cases heq
+  · cases hst : stationary (rowNormalizeQ (restrict T mask)) with
+    | none => rw [hst] at heq; simp at heq
+    | some v =>
+      rw [hst] at heq
+      simp only [Except.ok.injEq, Option.some.injEq] at heq
+      have hR := rowNormalizeQ_eq_self (restrict_row_sum (n := n) hT hclosed hrow)
+      have hv := stationary_sound _ _ v (by rw [hR]; exact WF_restrict T mask) hst
+      have he := embed_stationary n T mask v hT hm hclosed hrow hv.1
+      rw [he.2, hv.2, map_div_one] at heq
+      subst heq
+      exact ⟨he.1, by rw [he.2, hv.2], fun i hi => getD_embed_of_not v mask hi⟩
+
+example :
+    let T : Mat := [[1/2, 1/2, 0], [1/3, 2/3, 0], [1/4, 1/4, 1/2]]
+    let mask := [true, true, false]
+    isErgodic T = false ∧ ergodicMask T = some mask ∧
+    (∀ i, i < 3 → ∀ j, j < 3 → mask.getD i false = true → mask.getD j false = false → entry T i j = 0) ∧
+    (∀ i, i < 3 → mask.getD i false = true → (T.getD i []).sum = 1) ∧
+    equilibrium T true = .ok (some [2/5, 3/5, 0]) := by decide +kernel
+
 
 end MsmVerif.C04
